@@ -114,13 +114,16 @@ def init (inputs : List File) : St :=
 
 def parseFiles (fs : Fs) (inputs : List File) : St := run fs (fs.n + 1) (init inputs)
 
-/-- the files which were read (or should have been) but cannot be used — they cannot be opened or do not parse — and are not
-    themselves named on the command line -/
+/-- the files which were read (or should have been) but cannot be used as they are — they cannot be opened, do not parse, or include
+    a file that cannot be found — and are not themselves named on the command line -/
 def badFiles (fs : Fs) (inputs reads : List File) : List File :=
   (reads.flatMap (fun f => (fs.incs f).filterMap (fun i =>
     match resolve fs.libs i with
     | some t => if !((fs.files[t]?.map (·.ok)).getD false) && !inputs.contains t then some t else none
-    | none => none))).eraseDups
+    | none => none)) ++
+   -- … and the files, not named either, with an include statement that cannot be resolved: what the missing file defines is missing
+   -- from everything above them as well (repair of the gap a review found in b4f5d8c)
+   reads.filter (fun f => !inputs.contains f && (fs.incs f).any (fun i => (resolve fs.libs i).isNone))).eraseDups
 
 /-- from an included file to the files that include it; a file named on the command line is not climbed from -/
 def upEdges (fs : Fs) (inputs reads : List File) : List (File × File) :=
